@@ -31,7 +31,8 @@ EXPLANATION = (
     "is not decremented later in the same call, so BOOTING lasts as long after a reset as after a request; _start_up_actions "
     "is reached only past the store of ON (start()/run() refuse before it); R12.7 Node.apply_timestep ticks processes, services, "
     "applications and the file system only on the `operating_state == ON` edge, and every path through the is_resetting edge "
-    "clears the flag. NOT decided: "
+    "clears the flag; every store of OFF (timed in apply_timestep, at once in power_off) is followed on every path by the test of "
+    "is_resetting. NOT decided: "
     "the number of ticks spent in BOOTING / SHUTTING_DOWN as an arithmetic fact."
 )
 TECHNIQUE = "static: forward dataflow of the power-state enum over CFGs (transition extraction), must-pass on interface enabling, request-tree validator inventory"
@@ -430,6 +431,21 @@ def r12_7(ctx: Ctx, uni: Set[str]) -> None:
                    "reached only past `self.operating_state == ON`" if p is None else
                    "software keeps working (restarts finish, installs complete, scans run) while the node is OFF / BOOTING / SHUTTING_DOWN",
                    path_text(p))
+    # a reset is "shutdown, then an automatic start": wherever a node reaches OFF (timed or at once) the reset flag is consulted
+    for mname in ("power_off", "apply_timestep"):
+        fm = ix.method(f"Node.{mname}")
+        gm = CFG(fm.node)
+        ldm = LocalDefs(fm.node)
+        tests = {n.id for n in gm.nodes if n.kind == "cond" and unparse(ldm.expand(n.ast)).endswith("is_resetting")}
+        for n in gm.nodes:
+            v = store_of_field(n, "self", ["operating_state"])
+            if v is None or enum_member(v)[1] != "OFF":
+                continue
+            p_ = gm.path_avoiding([gm.exit], lambda e: False, start=n, blocked_nodes=tests)
+            ctx.record("R12.7", ctx.key(fm, "reaching OFF consults the reset flag"), fm.loc(n.ast), p_ is None,
+                       "every path from the store of OFF tests is_resetting (and restarts the node when it is set)" if p_ is None else
+                       f"Node.{mname} can take the node to OFF without looking at is_resetting: a reset that goes through this store never "
+                       "restarts the node", path_text(p_))
     flag_edges = [e for e in g.edges() if e.label and e.label[0] == "cond" and e.label[2] is True and unparse(ld.expand(e.label[1])).endswith("is_resetting")]
     if not flag_edges:
         raise AnalysisError("R12.7: Node.apply_timestep no longer tests is_resetting")
